@@ -467,6 +467,16 @@ S["async_in_group"] = dict(
           T("M1", 1, group="g", **{"async": {"0": [("set", "A.e", "mi")], "1": [("set", "A.e", "mi")]}})],
     conns=[dict(src="A", dst="M1", sattr="po", dattr="mi", **{"async": True})])
 
+# an idle event-based simulator in the middle of two async_requests connections: it never steps,
+# so bookkeeping that refers to "its last step" refers to a step that does not exist
+S["async_idle_middle"] = dict(
+    until=3, sims=[T("X"), E("Sl"), T("Y")],
+    conns=[dict(src="X", dst="Sl", **{"async": True}), dict(src="Sl", dst="Y", **{"async": True})])
+S["async_idle_middle_data"] = dict(
+    until=3, sims=[T("X"), E("Sl"), T("Y")],
+    conns=[dict(src="X", dst="Sl", sattr="po", dattr="ti2", **{"async": True}),
+           dict(src="Sl", dst="Y", **{"async": True})])
+
 # ---- longer trigger chains ending in a self-stepping consumer, started against the data flow,
 # with a time-shifted hop that is not the first one (transitive-ancestor bookkeeping) -----------
 _CH = [E("X", init_event=0, emit_default=0, next=[1, 1]), E("M", emit_default=0), E("N", emit_default=0),
